@@ -325,3 +325,32 @@ PROPS["C09"] = dict(
     max_parallel=14,
     min_evaluations={"quick": 60, "thorough": 500},
 )
+
+
+def _c20_shards(tier, seed):
+    cfgs = [(0, 1, 0, 16, 65536), (1, 1, 0, 16, 65536), (0, 0, 0, 8, 16384), (1, 0, 1, 4, 4096)]
+    if tier == "thorough":
+        cfgs += [(zc, ms, ck, b, sz) for zc in (0, 1) for ms in (0, 1) for ck in (0, 1) for (b, sz) in ((2, 4096), (16, 16384), (8, 65536))][:28]
+    out = []
+    for i, (zc, ms, ck, b, sz) in enumerate(cfgs):
+        out.append(dict(bin="c20", flavour="uring", args=["--shard", "%d/%d" % (i, len(cfgs)), "--zc", zc, "--ms", ms, "--cork", ck, "--bufs", b, "--bufsize", sz],
+                        timeout=900 if tier == "quick" else 2400, name="c20-zc%d-ms%d-ck%d-%dx%d" % (zc, ms, ck, b, sz)))
+    return out
+
+
+PROPS["C20"] = dict(
+    title="The io_uring backend is observably equivalent to the Tokio backend",
+    rule="one process per UringConfig (zero-copy x multishot x cork x send/recv pools of 2..16 buffers of 4..64 KiB; 4 configs quick, 28 thorough). "
+         "Each scenario runs twice with the same seed, on default sockets and on sockets with IO_URING_SESSION_ENABLED, and the observable "
+         "outcomes are compared: streaming PUSH->PULL / DEALER->ROUTER / ROUTER->DEALER with sizes below/at/above the buffer size and the "
+         "16 KiB zero-copy threshold, HWM {2,16,1000}, fast or slow reader (accepted count, C01 oracle verdict, error kinds); nine handshake "
+         "scenarios (compatible, incompatible type, PLAIN ok / bad password / vs NULL, raw garbage, raw ZMTP/2.0, raw >255 MORE frames, raw "
+         "peer stalled mid-greeting: handshake events, delivery, whether rzmq closed the connection); then 60/300 connect-send-close cycles "
+         "with RST peers on the io_uring backend; finally the registered-send-pool gauge must be 0 and /proc/self/fd back to its baseline. "
+         "distinct = (scenario, seed).",
+    assumptions=["kernel-side io_uring behaviour is whatever this VM's kernel does",
+                 "for a DEALER sender both backends share the recorded C01 egress defect, so only integrity verdicts are compared there"],
+    shards=_c20_shards,
+    max_parallel=4,
+    min_evaluations={"quick": 40, "thorough": 300},
+)
